@@ -29,7 +29,7 @@ const OPTS: LifeOpts = LifeOpts {
     adversary: None,
     dup: true,
     generators: true,
-    hooks: false,
+    hooks: true,
     outputs: true, drop_outputs: true
 };
 
